@@ -520,6 +520,7 @@ pub fn run(plan: &Plan, sp: &SpawnPlan) -> FamOut {
         }
         // C08 over the whole history
         judge_leaks();
+        judge_eof_propagation(&mut kept);
         // release
         kill_all_children();
         for p in kept {
@@ -546,6 +547,7 @@ pub fn run(plan: &Plan, sp: &SpawnPlan) -> FamOut {
             }
             // let the other threads get their spawns in while these handles are alive
             crate::api::yield_threads(8);
+            judge_eof_propagation(&mut kept);
             for p in kept {
                 let pid = p.pid().map(|x| x as i32);
                 if let Some(pid) = pid {
@@ -569,6 +571,65 @@ pub fn run(plan: &Plan, sp: &SpawnPlan) -> FamOut {
     // the OS threads are reaped by the runner (they have left the simulation)
     crate::runner::stash_handles(handles.into_iter().map(|(_, h)| h).collect());
     FamOut { nontrivial }
+}
+
+/// C08, the consequence: closing the parent's end gives the child end-of-file, and the end of a
+/// child gives the parent end-of-file, whoever else is still running.
+fn judge_eof_propagation(kept: &mut Vec<Popen>) {
+    let holders = |desc: usize, except_pid: i32| -> Vec<(i32, PKind, Option<u8>)> {
+        sim().k.procs.values().filter(|c| c.pid != PARENT_PID && c.pid != except_pid && c.alive() && c.fds.values().any(|e| e.desc == desc)).map(|c| (c.pid, c.kind, c.forked_by)).collect()
+    };
+    for p in kept.iter_mut() {
+        if sim().poisoned.is_some() {
+            return;
+        }
+        let pid = p.pid().map(|x| x as i32).unwrap_or(-1);
+        // the child must have applied its pre-exec calls
+        if sim().k.procs.get(&pid).map(|c| c.state == PState::PreExec).unwrap_or(false) {
+            sim().step_entity(Ent::Proc(pid));
+        }
+        if let Some(f) = p.stdin.take() {
+            let pi = desc_of_parent_fd(f.as_raw_fd()).and_then(pipe_of_desc);
+            drop(f);
+            if let Some(pi) = pi {
+                let (w_open, wdesc, creator) = {
+                    let pp = &sim().k.pipes[pi];
+                    (pp.w_open, pp.wdesc, pp.creator)
+                };
+                if w_open {
+                    let h = holders(wdesc, -1);
+                    let cross = h.iter().any(|(_, _, fb)| fb.is_some() && creator.is_some() && *fb != creator);
+                    violate(
+                        "eof_blocked_by_stranger",
+                        if cross { "eof_blocked_by_stranger/cause=concurrent_spawn_on_other_thread".to_string() } else { "eof_blocked_by_stranger/stream=stdin".to_string() },
+                        format!("the parent closed its end of child {}'s stdin, but the write end is still open in {:?}: the child cannot see end-of-file", pid, h),
+                    );
+                }
+                sim().k.probe("eof_propagation_checked");
+            }
+        }
+        // the child goes away: its output pipes must reach end-of-file
+        let outs: Vec<(usize, &'static str)> = [(p.stdout.as_ref(), "stdout"), (p.stderr.as_ref(), "stderr")].iter().filter_map(|(f, n)| f.and_then(|f| desc_of_parent_fd(f.as_raw_fd())).and_then(pipe_of_desc).map(|pi| (pi, *n))).collect();
+        if !outs.is_empty() && pid > 0 {
+            kill_pid(pid);
+            for (pi, name) in outs {
+                let (w_open, wdesc, creator) = {
+                    let pp = &sim().k.pipes[pi];
+                    (pp.w_open, pp.wdesc, pp.creator)
+                };
+                if w_open {
+                    let h = holders(wdesc, pid);
+                    let cross = h.iter().any(|(_, _, fb)| fb.is_some() && creator.is_some() && *fb != creator);
+                    violate(
+                        "eof_blocked_by_stranger",
+                        if cross { "eof_blocked_by_stranger/cause=concurrent_spawn_on_other_thread".to_string() } else { format!("eof_blocked_by_stranger/stream={}", name) },
+                        format!("child {} is gone but the write end of its {} pipe is still open in {:?}: the parent cannot see end-of-file", pid, name, h),
+                    );
+                }
+                sim().k.probe("eof_propagation_checked");
+            }
+        }
+    }
 }
 
 fn kill_pid(pid: i32) {
@@ -845,6 +906,7 @@ fn judge_lookup(spec: &SpawnSpec, spawn_idx: usize, mo: &ModelOut, ctx: &str) {
 pub fn judge_leaks() {
     let s = sim();
     let mut cross_hits = 0u64;
+    let mut cross_kinds: Vec<&'static str> = vec![];
     for c in s.k.all_procs() {
         if !matches!(c.kind, PKind::Child(_)) || c.exec.is_none() {
             continue;
@@ -874,6 +936,11 @@ pub fn judge_leaks() {
                 // the pipe belongs to a spawn in progress on another thread
                 violate("fd_leak_child", "fd_leak_child/cause=concurrent_spawn_on_other_thread".into(), format!("child {} ({:?}, forked by thread {:?}) holds descriptor {} = {} end of a pipe ({}) that thread {:?} created for a spawn of its own", c.pid, c.kind, c.forked_by, fd, end, role, s.k.pipes[pi].creator));
                 cross_hits += 1;
+                cross_kinds.push(match (role.starts_with("some_childs"), end) {
+                    (true, "write") => "cross_leak_stdio_write_end",
+                    (true, _) => "cross_leak_stdio_read_end",
+                    _ => "cross_leak_status_or_other_pipe",
+                });
             } else {
                 violate("fd_leak_child", format!("fd_leak_child/pipe={}/end={}", role, end), format!("child {} ({:?}) holds descriptor {} = {} end of a library pipe ({}) that is not one of its standard streams", c.pid, c.kind, fd, end, role));
             }
@@ -881,6 +948,9 @@ pub fn judge_leaks() {
     }
     for _ in 0..cross_hits {
         sim().k.probe("cross_thread_pipe_inherited");
+    }
+    for k in cross_kinds {
+        sim().k.probe(k);
     }
 }
 
@@ -1374,6 +1444,8 @@ pub fn generate(prop: &str, rng: &mut Rng, plan: &mut Plan, index: u64) {
         }
         _ => {
             // C08 (single-threaded part): histories of spawns while earlier handles stay alive
+            // long-lived children: a leaked descriptor only hurts while its holder lives
+            plan.programs[0] = vec![Op::ReadAll { fd: 0, chunk: 4096 }, Op::Sleep { ns: 3_600_000_000_000 }];
             let n = 2 + rng.below(5) as usize;
             for _ in 0..n {
                 let mut spec = SpawnSpec::default();
